@@ -1,6 +1,6 @@
 (* Props_C20.v — property C20: ONLY theorem statements, each closed by [exact] of a lemma from
    C20_Proofs, followed by Print Assumptions. *)
-From Verif Require Import Base C20_Model C20_Proofs.
+From Verif Require Import Base C20_Model C20_Proofs C20_Proofs2.
 Open Scope Z_scope.
 
 (* MigrateColumn leaves alone a column the dialect reports exactly as declared (same type text,
@@ -52,6 +52,31 @@ Theorem c20_data_preserved : forall ds fill rows,
        lookup c (nth i (fold_left (fun rs d => exec_additive d fill rs) ds rows) []) = Some v.
 Proof. exact additive_preserves_data. Qed.
 Print Assumptions c20_data_preserved.
+
+(* ReorderModels (autoAdd): every requested model is listed, and every dependency of every listed
+   model comes before it or lies on a dependency cycle through it; the out-of-fuel result [None]
+   is excluded *)
+Theorem c20_reorder_dependencies_first : forall deps fuel names order,
+  reorder deps fuel names = Some order ->
+  (forall n, In n names -> In n order)
+  /\ forall n, In n order -> forall d, In d (deps n) -> before d n order \/ reaches deps d n.
+Proof. exact reorder_dependencies_first. Qed.
+Print Assumptions c20_reorder_dependencies_first.
+
+(* ... hence a topological order w.r.t. foreign-key dependencies when these are acyclic *)
+Theorem c20_reorder_topological : forall deps fuel names order,
+  (forall n d, In d (deps n) -> ~ reaches deps d n) ->
+  reorder deps fuel names = Some order ->
+  forall n, In n order -> forall d, In d (deps n) -> before d n order.
+Proof. exact reorder_topological. Qed.
+Print Assumptions c20_reorder_topological.
+
+Example c20_reorder_instance :
+  let deps := fun n : string =>
+    if String.eqb n "d" then ["c"; "a"] else if String.eqb n "c" then ["b"]
+    else if String.eqb n "b" then ["a"] else [] in
+  reorder deps 5 ["d"]%string = Some ["a"; "b"; "c"; "d"]%string.
+Proof. vm_compute. reflexivity. Qed.
 
 (* non-vacuity: a declared varchar column reported back identically matches; a different reported
    size does not, and the model then decides to alter *)
